@@ -181,7 +181,7 @@ Proof.
   unfold format, zarg.
   change (parse_fmt (length [37; 100]) [37; 100]) with [IDir (plain 100)].
   change (ndirs [IDir (plain 100)] >? len [ANum (NFin (z <? 0) (Z.abs z) 0)]) with false.
-  cbv iota. cbn [run_items].
+  cbv iota. cbn [run_items resolve].
   unfold fmt_dir. change (d_verb (plain 100)) with 100. cbn [Z.eqb Pos.eqb orb].
   rewrite to_int64_zarg by exact H. rewrite app_nil_r. reflexivity.
 Qed.
@@ -210,9 +210,7 @@ Qed.
 Lemma fmt_signed_width go sp z : owidth (d_width sp) <= len (fmt_signed go sp z).
 Proof.
   unfold fmt_signed. destruct (d_prec sp) as [p|].
-  - destruct ((p =? 0) && (Z.abs z =? 0)).
-    + destruct go; [apply spaces_width | apply pad_width].
-    + apply pad_width.
+  - destruct ((p =? 0) && (Z.abs z =? 0)); apply pad_width.
   - apply pad_num_width.
 Qed.
 
@@ -230,39 +228,33 @@ Lemma fmt_unsigned_width go sp base upper u :
   owidth (d_width sp) <= len (fmt_unsigned go sp base upper u).
 Proof.
   unfold fmt_unsigned. cbv zeta. destruct (d_prec sp) as [p|].
-  - destruct ((p =? 0) && (u =? 0)).
-    + destruct go; [apply spaces_width | apply pad_width].
-    + apply pad_width.
+  - destruct ((p =? 0) && (u =? 0)); apply pad_width.
   - destruct (f_zero sp && negb (f_minus sp)); [|apply pad_width].
-    set (sign := if go then sign_of sp false else []).
-    set (hexpre := if (base =? 16) && f_sharp sp && (go || negb (u =? 0)) then _ else _).
-    set (pre := if go then sign else sign ++ hexpre).
+    set (hexpre := if (base =? 16) && f_sharp sp && negb (u =? 0) then _ else _).
     set (ds := digits base upper u).
     rewrite !len_app.
-    pose proof (len_oct_ge ((base =? 8) && f_sharp sp) (zeros (owidth (d_width sp) - len pre - len ds) ++ ds)) as H.
-    rewrite len_app, len_zeros in H.
-    assert (len pre <= len sign + len hexpre).
-    { subst pre. destruct go; [|rewrite len_app]; pose proof (len_nonneg hexpre); lia. }
-    lia.
+    pose proof (len_oct_ge ((base =? 8) && f_sharp sp) (zeros (owidth (d_width sp) - len hexpre - len ds) ++ ds)) as H.
+    rewrite len_app, len_zeros in H. lia.
 Qed.
 
 Lemma fmt_float_width go sp is_e upper n : owidth (d_width sp) <= len (fmt_float go sp is_e upper n).
 Proof.
   unfold fmt_float. destruct n as [neg m e|neg|].
   - apply pad_num_width.
-  - destruct go; apply pad_width.
-  - destruct go; apply pad_width.
+  - apply pad_width.
+  - apply pad_width.
 Qed.
 
 Lemma format_width_lemma go sp a out :
   fmt_dir go sp a = Some out -> owidth (d_width sp) <= len out.
 Proof.
-  unfold fmt_dir. destruct a as [n|s].
+  unfold fmt_dir. destruct a as [n|s|s c].
   - repeat match goal with
            | |- (if ?c then _ else _) = Some _ -> _ => destruct c
            end; intros H; inversion H; subst;
       auto using fmt_signed_width, fmt_unsigned_width, fmt_float_width, pad_str_width.
   - destruct (d_verb sp =? 115); intros H; inversion H; subst. apply pad_str_width.
+  - discriminate.
 Qed.
 
 (* ---------- left / right justification ---------- *)
@@ -289,10 +281,7 @@ Proof.
   unfold fmt_signed, set_width, sign_of.
   cbn [d_prec d_width f_minus f_plus f_space f_sharp f_zero d_verb].
   destruct p as [p|].
-  - destruct ((p =? 0) && (Z.abs z =? 0)).
-    + destruct go; cbn [owidth]; [|rewrite pad_none; reflexivity].
-      change (spaces 0) with (@nil Z). apply spaces_as_pad.
-    + rewrite pad_none. reflexivity.
+  - destruct ((p =? 0) && (Z.abs z =? 0)); rewrite pad_none; reflexivity.
   - rewrite !pad_num_nozero by exact H. cbn [d_width f_minus]. rewrite pad_none. reflexivity.
 Qed.
 
@@ -304,10 +293,7 @@ Proof.
   unfold fmt_unsigned, set_width, sign_of. cbv zeta.
   cbn [d_prec d_width f_minus f_plus f_space f_sharp f_zero d_verb].
   destruct p as [p|].
-  - destruct ((p =? 0) && (u =? 0)).
-    + destruct go; cbn [owidth]; [|rewrite pad_none; reflexivity].
-      change (spaces 0) with (@nil Z). apply spaces_as_pad.
-    + rewrite pad_none. reflexivity.
+  - destruct ((p =? 0) && (u =? 0)); rewrite pad_none; reflexivity.
   - rewrite H. rewrite pad_none. reflexivity.
 Qed.
 
@@ -320,8 +306,8 @@ Proof.
   cbn [d_prec d_width f_minus f_plus f_space f_sharp f_zero d_verb].
   destruct n as [neg m e|neg|].
   - rewrite !pad_num_nozero by exact H. cbn [d_width f_minus]. rewrite pad_none. reflexivity.
-  - destruct go; rewrite pad_none; reflexivity.
-  - destruct go; rewrite pad_none; reflexivity.
+  - rewrite pad_none; reflexivity.
+  - rewrite pad_none; reflexivity.
 Qed.
 
 Lemma pad_str_pad go sp b : f_zero sp && negb (f_minus sp) = false ->
@@ -339,12 +325,13 @@ Proof.
   intros Hf. apply nozero_of in Hf. unfold fmt_dir.
   replace (d_verb (set_width sp None)) with (d_verb sp) by (destruct sp as [mi pl spc sh ze w p v]; reflexivity).
   replace (d_prec (set_width sp None)) with (d_prec sp) by (destruct sp as [mi pl spc sh ze w p v]; reflexivity).
-  destruct a as [n|s].
+  destruct a as [n|s|s c].
   - repeat match goal with
            | |- (if ?c then _ else _) = Some _ -> _ => destruct c
            end; intros H; inversion H; subst; f_equal;
       auto using fmt_signed_pad, fmt_unsigned_pad, fmt_float_pad, pad_str_pad.
   - destruct (d_verb sp =? 115); intros H; inversion H; subst. f_equal. apply pad_str_pad. exact Hf.
+  - discriminate.
 Qed.
 
 (* ---------- flag 0 and precision on %d ---------- *)
@@ -429,7 +416,8 @@ Proof.
   - destruct (run_items go its args) eqn:E; try discriminate.
     rewrite (IH _ _ extra E). exact H.
   - destruct args as [|a args']; [discriminate|]. cbn [app].
-    destruct (fmt_dir go sp a); [|discriminate].
+    destruct (resolve sp a) as [a'|]; [|discriminate].
+    destruct (fmt_dir go sp a'); [|discriminate].
     destruct (run_items go its args') eqn:E; try discriminate.
     rewrite (IH _ _ extra E). exact H.
   - discriminate.
@@ -444,7 +432,8 @@ Proof.
     + destruct (run_items go its args) eqn:E; try discriminate.
       apply IH in E. unfold ndirs in *. cbn [filter]. exact E.
     + destruct args as [|a args']; [discriminate|].
-      destruct (fmt_dir go sp a); [|discriminate].
+      destruct (resolve sp a) as [a'|]; [|discriminate].
+      destruct (fmt_dir go sp a'); [|discriminate].
       destruct (run_items go its args') eqn:E; try discriminate.
       apply IH in E. unfold ndirs, len in *. cbn [filter length]. lia.
     + discriminate.
@@ -477,126 +466,66 @@ Proof.
   destruct (existsb _ _); auto.
 Qed.
 
-(* ---------- the implementation model equals C's printf outside the listed deviations ---------- *)
+(* ---------- the implementation model equals C's printf; only flag 0 on %s / %c differs ---------- *)
 Lemma to_int64_range n : - two63 <= to_int64 n < two63.
 Proof.
   unfold to_int64. destruct (trunc_num n) as [z|]; [|unfold two63; lia].
   destruct (in_int64 z) eqn:E; [unfold in_int64 in E; lia | unfold two63; lia].
 Qed.
 
-Lemma mod64_zero n : (to_int64 n mod two64 =? 0) = (to_int64 n =? 0).
+Lemma pad_str_eq sp b : f_zero sp && negb (f_minus sp) = false -> pad_str true sp b = pad_str false sp b.
+Proof. intros H. unfold pad_str. cbn [andb]. rewrite H. reflexivity. Qed.
+
+(* every conversion except zero-filled %s / %c is rendered identically by both dialects *)
+Lemma format_impl_eq_spec_strong_lemma sp a :
+  verb_in (d_verb sp) [99; 115] && (f_zero sp && negb (f_minus sp)) = false ->
+  fmt_dir true sp a = fmt_dir false sp a.
 Proof.
-  pose proof (to_int64_range n) as H. unfold two63 in H. unfold two64.
-  destruct (to_int64 n =? 0) eqn:E.
-  - apply Z.eqb_eq in E. rewrite E. reflexivity.
-  - apply Z.eqb_neq in E. apply Z.eqb_neq. intros Hm.
-    apply Z.mod_divide in Hm; [|lia]. destruct Hm as [k Hk]. lia.
+  intros H. unfold fmt_dir. destruct a as [n|s|s c]; [| |reflexivity].
+  - destruct ((d_verb sp =? 100) || (d_verb sp =? 105)); [reflexivity|].
+    destruct (d_verb sp =? 99) eqn:V99.
+    { f_equal. apply pad_str_eq. unfold verb_in in H. cbn [existsb] in H. rewrite V99 in H. exact H. }
+    destruct (d_verb sp =? 120); [reflexivity|]. destruct (d_verb sp =? 88); [reflexivity|].
+    destruct (d_verb sp =? 111); [reflexivity|]. destruct (d_verb sp =? 101); [reflexivity|].
+    destruct (d_verb sp =? 69); [reflexivity|]. destruct (d_verb sp =? 102); [reflexivity|].
+    destruct (d_verb sp =? 115) eqn:V115; [|reflexivity].
+    destruct (is_integral n && in_int64 (to_int64 n) && negb (to_int64 n =? - two63)); [|reflexivity].
+    f_equal. apply pad_str_eq. unfold verb_in in H. cbn [existsb] in H. rewrite V99, V115 in H. exact H.
+  - destruct (d_verb sp =? 115) eqn:V115; [|reflexivity].
+    f_equal. apply pad_str_eq. unfold verb_in in H. cbn [existsb] in H. rewrite V115 in H.
+    rewrite orb_true_r in H. exact H.
 Qed.
-
-Lemma fmt_signed_eq sp z :
-  (match d_prec sp with Some 0 => (z =? 0) && (f_plus sp || f_space sp) | _ => false end) = false ->
-  fmt_signed true sp z = fmt_signed false sp z.
-Proof.
-  intros H. unfold fmt_signed. destruct (d_prec sp) as [p|]; [|reflexivity].
-  destruct ((p =? 0) && (Z.abs z =? 0)) eqn:E; [|reflexivity].
-  assert (p = 0 /\ z = 0) as [-> ->] by lia.
-  change (0 =? 0) with true in H. cbn [andb] in H. apply orb_false_elim in H. destruct H as [H1 H2].
-  unfold sign_of. change (0 <? 0) with false. rewrite H1, H2. symmetry. apply pad_nil.
-Qed.
-
-Lemma fmt_unsigned_eq sp base upper u :
-  f_plus sp = false -> f_space sp = false ->
-  ((base =? 16) && f_sharp sp &&
-   ((u =? 0) || (f_zero sp && negb (f_minus sp) && match d_prec sp with None => true | _ => false end))) = false ->
-  (match d_prec sp with Some 0 => (u =? 0) && ((base =? 8) && f_sharp sp) | _ => false end) = false ->
-  fmt_unsigned true sp base upper u = fmt_unsigned false sp base upper u.
-Proof.
-  intros Hp Hs H16 H8. unfold fmt_unsigned, sign_of. cbv zeta. rewrite Hp, Hs.
-  destruct (d_prec sp) as [p|].
-  - destruct ((p =? 0) && (u =? 0)) eqn:E.
-    + assert (p = 0 /\ u = 0) as [-> ->] by lia.
-      change (0 =? 0) with true in H8. cbn [andb] in H8. rewrite H8.
-      unfold oct_fix. symmetry. apply pad_nil.
-    + destruct ((base =? 16) && f_sharp sp) eqn:B; [|reflexivity].
-      cbn [andb orb] in H16. apply orb_false_elim in H16. destruct H16 as [H16 _].
-      rewrite H16. reflexivity.
-  - destruct ((base =? 16) && f_sharp sp) eqn:B.
-    + cbn [andb orb] in H16. apply orb_false_elim in H16. destruct H16 as [Hu Hz].
-      rewrite andb_true_r in Hz. rewrite Hu, Hz. reflexivity.
-    + cbn [andb app]. reflexivity.
-Qed.
-
-Lemma pad_str_eq sp b : f_zero sp = false -> pad_str true sp b = pad_str false sp b.
-Proof. intros H. unfold pad_str. rewrite H. reflexivity. Qed.
-
-Lemma fmt_float_eq sp is_e upper n :
-  match n with NFin _ _ _ => True | _ => False end ->
-  fmt_float true sp is_e upper n = fmt_float false sp is_e upper n.
-Proof. destruct n; [reflexivity | contradiction | contradiction]. Qed.
 
 Lemma format_impl_eq_spec_lemma sp a :
-  c_defined sp a = true -> known_dev sp a = false -> fmt_dir true sp a = fmt_dir false sp a.
+  c_defined sp a = true -> fmt_dir true sp a = fmt_dir false sp a.
 Proof.
-  unfold c_defined, known_dev, dev_sharp_hex, dev_prec0_zero, dev_inf_nan, fmt_dir, is_zero_val, is_special.
-  intros Hd Hk.
-  apply andb_prop in Hd. destruct Hd as [_ Hd].
-  apply orb_false_elim in Hk. destruct Hk as [Hk Hinf].
-  apply orb_false_elim in Hk. destruct Hk as [Hhex Hp0].
-  destruct a as [n|s].
-  2:{ destruct (d_verb sp =? 115) eqn:V; [|reflexivity].
-      apply Z.eqb_eq in V. rewrite V in Hd. cbn in Hd.
-      f_equal. apply pad_str_eq. destruct (f_sharp sp), (f_zero sp); try reflexivity; discriminate. }
-  destruct (Z.eq_dec (d_verb sp) 100) as [V|V1]; [rewrite V in *; cbn in *|].
-  { f_equal. apply fmt_signed_eq. destruct (d_prec sp) as [[|p|p]|]; try reflexivity.
-    rewrite orb_false_r in Hp0. exact Hp0. }
-  destruct (Z.eq_dec (d_verb sp) 105) as [V|V2]; [rewrite V in *; cbn in *|].
-  { f_equal. apply fmt_signed_eq. destruct (d_prec sp) as [[|p|p]|]; try reflexivity.
-    rewrite orb_false_r in Hp0. exact Hp0. }
-  destruct (Z.eq_dec (d_verb sp) 99) as [V|V3]; [rewrite V in *; cbn in *|].
-  { f_equal. apply pad_str_eq. destruct (f_sharp sp), (f_zero sp); try reflexivity; discriminate. }
-  destruct (Z.eq_dec (d_verb sp) 120) as [V|V4]; [rewrite V in *; cbn in *|].
-  { f_equal. apply andb_prop in Hd. destruct Hd as [Hd1 Hd2].
-    apply fmt_unsigned_eq; try (destruct (f_plus sp), (f_space sp); try reflexivity; discriminate).
-    - rewrite mod64_zero. exact Hhex.
-    - destruct (d_prec sp) as [[|p|p]|]; try reflexivity. apply andb_false_r. }
-  destruct (Z.eq_dec (d_verb sp) 88) as [V|V5]; [rewrite V in *; cbn in *|].
-  { f_equal. apply andb_prop in Hd. destruct Hd as [Hd1 Hd2].
-    apply fmt_unsigned_eq; try (destruct (f_plus sp), (f_space sp); try reflexivity; discriminate).
-    - rewrite mod64_zero. exact Hhex.
-    - destruct (d_prec sp) as [[|p|p]|]; try reflexivity. apply andb_false_r. }
-  destruct (Z.eq_dec (d_verb sp) 111) as [V|V6]; [rewrite V in *; cbn in *|].
-  { f_equal. apply andb_prop in Hd. destruct Hd as [Hd1 Hd2].
-    apply fmt_unsigned_eq; try (destruct (f_plus sp), (f_space sp); try reflexivity; discriminate).
-    destruct (d_prec sp) as [[|p|p]|]; try reflexivity. rewrite mod64_zero. exact Hp0. }
-  assert (Hn : match n with NFin _ _ _ => True | _ => False end \/ verb_in (d_verb sp) [101; 69; 102] = false).
-  { destruct n; [left; exact I | right | right]; cbn [andb] in Hinf; rewrite andb_true_r in Hinf; exact Hinf. }
-  destruct (Z.eq_dec (d_verb sp) 101) as [V|V7]; [rewrite V in *; cbn in *|].
-  { f_equal. apply fmt_float_eq. destruct Hn as [Hn|Hn]; [exact Hn | discriminate]. }
-  destruct (Z.eq_dec (d_verb sp) 69) as [V|V8]; [rewrite V in *; cbn in *|].
-  { f_equal. apply fmt_float_eq. destruct Hn as [Hn|Hn]; [exact Hn | discriminate]. }
-  destruct (Z.eq_dec (d_verb sp) 102) as [V|V9]; [rewrite V in *; cbn in *|].
-  { f_equal. apply fmt_float_eq. destruct Hn as [Hn|Hn]; [exact Hn | discriminate]. }
-  destruct (Z.eq_dec (d_verb sp) 115) as [V|V10];
-    [rewrite V in *; cbn [verb_in existsb Z.eqb Pos.eqb orb andb negb] in *|].
-  { destruct (is_integral n && in_int64 (to_int64 n) && negb (to_int64 n =? - two63)); [|reflexivity].
-    f_equal. apply pad_str_eq. destruct (f_sharp sp), (f_zero sp); try reflexivity; discriminate. }
-  repeat match goal with
-         | |- context [d_verb sp =? ?k] => replace (d_verb sp =? k) with false by lia
-         end.
-  reflexivity.
+  intros Hd. apply format_impl_eq_spec_strong_lemma.
+  unfold c_defined in Hd. apply andb_prop in Hd. destruct Hd as [_ Hd].
+  unfold verb_in in *. cbn [existsb] in *.
+  destruct (d_verb sp =? 99) eqn:V99.
+  - apply Z.eqb_eq in V99. rewrite V99 in Hd. cbn in Hd.
+    destruct (f_sharp sp), (f_zero sp); try discriminate; reflexivity.
+  - destruct (d_verb sp =? 115) eqn:V115; [|reflexivity].
+    apply Z.eqb_eq in V115. rewrite V115 in Hd. cbn in Hd.
+    destruct (f_sharp sp), (f_zero sp); try discriminate; reflexivity.
 Qed.
 
-(* the three open deviations, as witnesses (known findings C15-8, C15-11, C15-12) *)
+(* formerly open deviations (findings C15-8, C15-11, C15-12 and +/space on %x), now repaired in the
+   code: both dialects give C's result *)
 Definition sharp_x : dspec := mkD false false false true false None None 120.
 Definition plus_prec0_d : dspec := mkD false true false false false None (Some 0) 100.
+Definition plus_x : dspec := mkD false true false false false None None 120.
 
-Lemma format_impl_neq_spec_witness :
-  exists sp a, c_defined sp a = true /\ fmt_dir true sp a <> fmt_dir false sp a.
-Proof. exists sharp_x, (zarg 0). split; [reflexivity | vm_compute; discriminate]. Qed.
-
-Lemma format_deviation_witnesses :
-  fmt_dir true sharp_x (zarg 0) = Some [48; 120; 48] /\ fmt_dir false sharp_x (zarg 0) = Some [48] /\
-  fmt_dir true (plain 102) (ANum (NInf false)) = Some [43; 73; 110; 102] /\
-  fmt_dir false (plain 102) (ANum (NInf false)) = Some [105; 110; 102] /\
-  fmt_dir true plus_prec0_d (zarg 0) = Some [] /\ fmt_dir false plus_prec0_d (zarg 0) = Some [43].
+Lemma format_repaired_witnesses :
+  fmt_dir true sharp_x (zarg 0) = Some [48] /\
+  fmt_dir true (plain 102) (ANum (NInf false)) = Some [105; 110; 102] /\
+  fmt_dir true plus_prec0_d (zarg 0) = Some [43] /\
+  fmt_dir true plus_x (zarg 255) = Some [102; 102].
 Proof. vm_compute. repeat split; reflexivity. Qed.
+
+(* a numeric string given to a numeric conversion is converted; a non-numeric one raises *)
+Lemma format_numeric_string_lemma go sp s n rest its :
+  numeric_verb (d_verb sp) = true ->
+  run_items go (IDir sp :: its) (AConv s (Some n) :: rest) = run_items go (IDir sp :: its) (ANum n :: rest) /\
+  run_items go (IDir sp :: its) (AConv s None :: rest) = FErr.
+Proof. intros H. cbn [run_items resolve]. rewrite H. split; reflexivity. Qed.
